@@ -11,12 +11,14 @@ props = [json.loads(l) for l in open(os.path.join(HERE, "properties.jsonl"))]
 meta_path = os.path.join(HERE, "tools", "manifest_meta.json")
 meta = json.load(open(meta_path)) if os.path.exists(meta_path) else {}
 
+ready_path = os.path.join(HERE, "tools", "ready.txt")
+ready = set(open(ready_path).read().split()) if os.path.exists(ready_path) else None
 checks, na = [], []
 for p in props:
     pid = p["id"]
     mod = os.path.join(HERE, "vf", "checks", pid.lower() + ".py")
     m = meta.get(pid, {})
-    if os.path.exists(mod) and not m.get("not_applicable"):
+    if os.path.exists(mod) and not m.get("not_applicable") and (ready is None or pid in ready):
         checks.append({
             "property_id": pid,
             "quick_cmd": f"/venv/bin/python -m vf.run {pid} --tier quick",
